@@ -14,15 +14,18 @@
                                                                                                     787-974
     childQueryByGuids        GeneInterval / FeatureIntervalCollection / VariantIntervalCollection .query_by_guids
 
-  `raise X` = `throw (.doc X)`.  Two paths of the real code end in an INTERNAL error; they are mirrored by
-  `.attributeError` so that the correspondence is exact on them too (they are findings, see Props/C09.lean):
-    * `child.is_coding` on a VariantIntervalCollection (no such attribute)                              F-C09a
+  `raise X` = `throw (.doc X)`.  One path of the real code ends in an INTERNAL error; it is mirrored by
+  `.attributeError` so that the correspondence is exact on it too (a finding, see Props/C09.lean):
     * `self.start` on a collection without bounds (empty, no located parent)                            F-C19f
-  Also mirrored as coded (findings): the end clamp `chromosome_location.end - 1` of `_subset_parent` (F-C09c),
-  `extract_sequence()` on a sequence-less parent (F-C09b), `VariantInterval.from_dict` dropping the parent (F-C08a,
-  constant `variantFromDictDropsParent`).  When /repo is repaired the model must follow:
-    F-C09a  `isCoding`: `.var => pure false`;   F-C09b  `subsetParent`: return the parent when it has no sequence;
-    F-C09c  `subsetParent`: `stop' := be`, `cre := p2r (stop' - 1) + 1`;   F-C08a  the constant := false.
+  (F-C09a, `child.is_coding` on a VariantIntervalCollection, is repaired in /repo 88921fc: `isCoding` follows.)
+
+  Code that is still defective is mirrored AS CODED behind constants; applying the candidate patch
+  (findings/C09.candidate_patches.diff) and flipping the constant keeps model = code and every theorem compiling:
+    `repairedC09b`  (false)  `_subset_parent` on a sequence-less parent: `extract_sequence()` → NullSequence;
+                             repaired: returns the parent unchanged
+    `repairedC09c`  (false)  `_subset_parent` end clamp `chromosome_location.end - 1`; repaired: clamp to `.end`
+                             and convert the last included position for every `end`
+    `variantFromDictDropsParent` (true)  F-C08a, `VariantInterval.from_dict` drops the parent; repaired: false
 
   Modelled domain (the harness generates exactly this; anything else is refused by the driver):
     * all members were built on the collection's own parent (`strict_parent_compare` never fails);
@@ -116,10 +119,10 @@ def anyBinIn (S : RangeSet) : List GChild → QR Bool
       if (← gcBinIn S g) then pure true else anyBinIn S gs
 
 /-- `child.is_coding`: GeneInterval any(tx.is_coding), FeatureIntervalCollection False,
-    VariantIntervalCollection has no such attribute -/
+    VariantIntervalCollection False (property added by the repair of F-C09a, /repo 88921fc) -/
 def isCoding (c : Child) : QR Bool :=
   match c.kind with
-  | .var => throw .attributeError
+  | .var => pure false
   | _ => pure c.coding
 
 /-- one iteration of the loop of `_query_by_position`: is the child appended? -/
@@ -166,12 +169,19 @@ def mkChunk (start stop : Int) (seq : List Char) : QR RPar :=
   else if stop - start ≠ seq.length then throw (.doc .MismatchedParent)
   else pure (.chunk start stop seq)
 
-/-- `_subset_parent(start, end)` -/
-def subsetParent (src : Source) (start stop : Int) : QR RPar := do
+/-- is F-C09b repaired in /repo?  (`_subset_parent`: `elif not parent.sequence: return self._parent_or_seq_chunk_parent`) -/
+def repairedC09b : Bool := false
+/-- is F-C09c repaired in /repo?  (`_subset_parent`: `end = self.chromosome_location.end`, then
+    `parent_to_relative_pos(end - 1) + 1` for every `end`) -/
+def repairedC09c : Bool := false
+
+/-- `_subset_parent(start, end)`, as coded (`fixB = fixC = false`) and with the candidate repairs of F-C09b / F-C09c -/
+def subsetParentG (fixB fixC : Bool) (src : Source) (start stop : Int) : QR RPar := do
   match src.par with
   | .none => pure .none                                   -- `not self.chunk_relative_location.parent`
   | par =>
     if start = stop then pure .none
+    else if fixB = true ∧ par.hasSeq = false then pure par.toRPar   -- repaired F-C09b: nothing to subset
     else
       let (bs, be) ← needBounds src
       if start = bs ∧ stop = be then pure par.toRPar        -- "we are not actually subsetting at all"
@@ -184,7 +194,12 @@ def subsetParent (src : Source) (start stop : Int) : QR RPar := do
         let start' := if chunkRel = true ∧ start < bs then bs else start
         let crs ← p2r bs be start'
         let (stop', cre) ←
-          if stop = be then (do let r ← p2r bs be (stop - 1); pure (stop, r + 1))
+          if fixC = true then (do
+            -- repaired F-C09c: clamp to the chunk end; `end` is exclusive: convert the last included position
+            let stop' := if chunkRel = true ∧ stop > be then be else stop
+            let r ← p2r bs be (stop' - 1)
+            pure (stop', r + 1))
+          else if stop = be then (do let r ← p2r bs be (stop - 1); pure (stop, r + 1))
           else (do
             let stop' := if chunkRel = true ∧ stop > be then be - 1 else stop
             let r ← p2r bs be stop'
@@ -193,6 +208,10 @@ def subsetParent (src : Source) (start stop : Int) : QR RPar := do
         | .whole seq => mkChunk start' stop' (slice seq crs cre)
         | .chunk _ seq => mkChunk start' stop' (slice seq crs cre)
         | _ => throw (.doc .NullSequence)                 -- `extract_sequence()` on a sequence-less parent
+
+/-- `_subset_parent` of the code as it is in /repo -/
+def subsetParent (src : Source) (start stop : Int) : QR RPar :=
+  subsetParentG repairedC09b repairedC09c src start stop
 
 /-- spliced sequence of a member rebuilt by `from_dict` on the result's parent
     (`liftover_location_to_seq_chunk_parent`, then `extract_sequence`) -/
